@@ -284,15 +284,21 @@ def _compile_shard(path):
 LAST_SKIPPED = {}
 
 
+def clean_cases(prop):
+    """remove every generated shard file of this property (sources and compiler output)"""
+    for old in list(CASES_DIR.glob(f"{prop}_s*")) + list(CASES_DIR.glob(f".{prop}_s*")):
+        try:
+            old.unlink()
+        except OSError:
+            pass
+
+
 def check_cases_in_coq(prop, model_module, terms, shard=300, check_fn="check_case",
                        extra_imports=(), max_bytes=400_000, skipped_fn=None):
     """Step 3.  `terms` are Coq terms of the model's `case` type.  Returns
     (failing_indices, compile_errors).  Agreement is a Qed'ed lemma per shard."""
     CASES_DIR.mkdir(exist_ok=True)
-    for old in CASES_DIR.glob(f"{prop}_s*.v"):
-        old.unlink()
-    for old in CASES_DIR.glob(f"{prop}_s*.vo"):
-        old.unlink()
+    clean_cases(prop)
     shards, cur, size = [], [], 0
     for i, t in enumerate(terms):
         if cur and (len(cur) >= shard or size + len(t) > max_bytes):
@@ -340,6 +346,8 @@ def check_cases_in_coq(prop, model_module, terms, shard=300, check_fn="check_cas
         else:
             errors.append({"shard": k, "detail": (out + "\n" + out2)[-2500:]})
     LAST_SKIPPED[prop] = skipped
+    if not failing and not errors:
+        clean_cases(prop)          # keep the disk small; failing shards stay for inspection
     return sorted(failing), errors
 
 
@@ -370,7 +378,7 @@ def case_key(case):
 
 def write_replay(prop, seed, payload):
     REPLAYS.mkdir(exist_ok=True)
-    p = REPLAYS / f"{prop}_{seed}_{int(time.time())}.json"
+    p = REPLAYS / f"{prop}_{seed}_{int(time.time())}_{os.getpid()}_{len(list(REPLAYS.glob(prop + '_*')))}.json"
     p.write_text(json.dumps(payload, indent=1, default=str))
     return p
 
